@@ -405,6 +405,15 @@ Proof.
   unfold filters. destruct (dict_get d K_Filter) as [[]|]; try (split; discriminate). apply N.
 Qed.
 
+(* ASCIIHexDecode (Model/AsciiHex.v, added with the repair of C02-asciihex) is structurally recursive *)
+Lemma ahx_loop_no_fuel input : forall high, AsciiHex.loop input high <> Fuel.
+Proof.
+  induction input as [|ch rest IH]; intro high; cbn [AsciiHex.loop]; [discriminate|].
+  destruct (AsciiHex.hex_digit ch).
+  - destruct high; [|apply IH]. specialize (IH None). destruct (AsciiHex.loop rest None); cbn [emit]; congruence.
+  - destruct (byte_eqb ch AHX_EOD); [discriminate|]. destruct (_ || _); [apply IH | discriminate].
+Qed.
+
 Theorem decompressed_content_no_fuel inflate lzw s : decompressed_content inflate lzw s <> Fuel.
 Proof.
   assert (L : forall d fs index input output, decode_loop inflate lzw d fs index input output <> Fuel).
@@ -412,7 +421,8 @@ Proof.
     assert (decode_one inflate lzw f (params_for d index) input <> Fuel) as H1.
     { unfold decode_one. destruct (bytes_eqb f F_FLATE); [apply decompress_predictor_no_fuel|].
       destruct (bytes_eqb f F_LZW); [apply decompress_predictor_no_fuel|].
-      destruct (bytes_eqb f F_A85); [apply a85_loop_no_fuel | discriminate]. }
+      destruct (bytes_eqb f F_A85); [apply a85_loop_no_fuel |].
+      destruct (AHX_ENABLED && bytes_eqb f F_AHX); [apply ahx_loop_no_fuel | discriminate]. }
     destruct (decode_one _ _ _ _ _); try congruence; apply IH. }
   unfold decompressed_content. destruct (filters_no_fuel (s_dict s)) as [F1 F2].
   destruct (filters (s_dict s)); try congruence; apply L.
